@@ -8,7 +8,7 @@ import sys
 import numpy as np
 
 sys.path.insert(0, os.path.dirname(os.path.abspath(__file__)))
-from _util import time_limit  # noqa
+from _util import time_limit, call_getters, plan_getters  # noqa
 
 req = json.load(sys.stdin)
 
@@ -28,8 +28,12 @@ def run_one(c):
     before = (at.get_positions().copy(), at.get_cell().array.copy(), at.get_atomic_numbers().copy())
     tol = c.get("tol", 1e-3)
     a = SymmetryAnalyzer(at, symmetry_tol=tol)
+    called = None
+    if c.get("getters") is not None or c.get("getter_seed") is not None:
+        # history: a selection of the other public getters is called first, in a shuffled order
+        called = call_getters(a, seed=c.get("getter_seed"), names=c.get("getters"))
     ds = a.get_symmetry_dataset()
-    out = {"id": c["id"], "number": int(g(ds, "number")), "hall_number": int(g(ds, "hall_number")),
+    out = {"id": c["id"], "getters_called_first": called, "number": int(g(ds, "number")), "hall_number": int(g(ds, "hall_number")),
            "international": str(g(ds, "international")), "pointgroup_spglib": str(g(ds, "pointgroup"))}
     # an INDEPENDENT symmetry search on the input as given (same tolerance), not through the analyzer: the reference for
     # "the idealized standardized atoms of the input"
@@ -158,5 +162,7 @@ for c in req.get("cases", []):
             rows.append(run_one(c))
     except Exception as e:
         import traceback
-        rows.append({"id": c["id"], "error": type(e).__name__ + ": " + str(e)[:300], "tb": traceback.format_exc()[-600:]})
+        rows.append({"id": c["id"], "error": type(e).__name__ + ": " + str(e)[:300], "tb": traceback.format_exc()[-600:],
+                     "getters_called_first": c.get("getters") if c.get("getters") is not None else
+                     (plan_getters(SymmetryAnalyzer, c["getter_seed"]) if c.get("getter_seed") is not None else None)})
 print(json.dumps({"rows": rows, "reuse": reuse_rows}, default=__import__("_util").jdefault))
